@@ -96,6 +96,7 @@ enum VariantMode {
   VM_NESTED = 4,     // nested inside a callback of an unrelated placement
   VM_FREERUN = 5,    // threads not serialised, seeded spin delays
   VM_PINNED = 6,     // free-running, pinned to one core
+  VM_HISTORY = 7,    // same public state, reached through another history of the Circuit object
   VM_NKINDS
 };
 struct Variant {
